@@ -9,7 +9,7 @@ URW = "widget/_urwid.py"
 TRUSTED = ["urwid's canvas/shard structure describes the screen; kitty / konsole honour delete-by-z-index and delete-all",
            "Python dispatches `__class__` inside a method to the defining class (UrwidImage)"]
 ASSUMPTIONS = []
-NOT_DECIDED = ["that the shard walk of _ti_clear_images computes exactly the on-screen image views (urwid geometry is assumed)"]
+NOT_DECIDED = ["that the shard walk of _ti_clear_images computes exactly the on-screen image views: not proved (urwid's shard geometry is outside the engine); a BOUNDED search against urwid's own shard functions stands in (bounded_standins)"]
 
 LIM = 2 ** 31
 IntSet = z3.ArraySort(z3.IntSort(), z3.BoolSort())
@@ -710,3 +710,39 @@ def u_ti_walk_step(ctx):
                 eng.oblige("tracked-view-recorded-once-under(canvas,row,col,left-trim,top-trim,columns,rows)", s, goal, kind="post")
             obs += eng.obligations
     return obs
+
+
+# ------------------------------------------------------------------------------------------------ bounded stand-in: the shard walk's geometry
+def extra_checks(tier, seed):
+    """The assumed half of the walk-step unit (`row` / `col` ARE the view's position) is outside the engine's reach (dictionaries with
+    symbolic integer keys; urwid's `shard_body` as the specification).  BOUNDED stand-in, never counted as proved: the real
+    `_ti_clear_images` against urwid's own shard functions on layouts built by urwid (replay/C18.py: shard_walk).  A disagreement is
+    a violation with a replayed input, reported only if found again on an immediate re-run."""
+    import json as _json, os as _os, subprocess as _sp
+    from pyvc import runner as _r
+
+    def run():
+        try:
+            out = _sp.run([_r.VENV_PY, _os.path.join(_r.VERIF, "replay", "run.py"), "C18.shard_walk", "{}", "{}"], capture_output=True, text=True, timeout=900,
+                          env={**_os.environ, "VERIF_REPO": _r.REPO, "PYTHONDONTWRITEBYTECODE": "1"})
+            return _json.loads(out.stdout.strip().splitlines()[-1])
+        except Exception as e:  # noqa: BLE001
+            return {"reproduced": False, "error": repr(e)}
+    rr = run()
+    entry = {"what": "shard walk of _ti_clear_images vs urwid.canvas.shard_body / shard_body_tail (positions of image views)", "bound": str(rr.get("input")),
+             "failing_input_found": bool(rr.get("reproduced"))}
+    out = {"bounded": [entry], "report": {"shard_walk_search": {"bound": rr.get("input"), "failing_input_found": bool(rr.get("reproduced"))}}}
+    if rr.get("error"):
+        entry["error"] = str(rr["error"])[-300:]
+        out["undecided"] = ["bounded-search=C18.shard_walk reason=the search itself failed: " + str(rr["error"])[-200:]]
+    elif rr.get("reproduced"):
+        if not run().get("reproduced"):
+            out["undecided"] = ["bounded-search=C18.shard_walk reason=not-reproducible-on-re-run"]
+        else:
+            rdir = _os.path.join(_r.OUT, "replays", "C18")
+            _os.makedirs(rdir, exist_ok=True)
+            path = _os.path.join(rdir, "bounded_C18.shard_walk.json")
+            _json.dump({"obligation": "bounded search C18.shard_walk: the positions recorded for image views are urwid's", "property": "C18", "replay": rr, "reproduced": True,
+                        "replay_cmd": f"{_r.VENV_PY} {_r.VERIF}/replay/run.py C18.shard_walk '{{}}' '{{}}'"}, open(path, "w"), indent=1)
+            out["violations"] = [f"VIOLATION property=C18 replay={path}"]
+    return out
